@@ -8,6 +8,7 @@ PROP = 'C12'
 MODEL_MODULES = ['TenpyModel.Util.J', 'TenpyModel.C12.Mat', 'TenpyModel.C12.Sites', 'TenpyModel.C12.JW']
 PROPS_MODULES = ['TenpyModel.C12.PropsSites', 'TenpyModel.C12.PropsCharges', 'TenpyModel.C12.PropsHc',
                  'TenpyModel.C12.PropsCAR', 'TenpyModel.C12.PropsJW']
+PROPS_MODULES = PROPS_MODULES + ['TenpyModel.C12.Props2']   # second round of theorems (Props2.lean + P2_*.lean)
 LEAN_MODULES = PROPS_MODULES
 LEVEL = 'proof'
 BUDGET = {'quick': 170, 'thorough': 1500}
